@@ -60,7 +60,13 @@ pub fn tag_is(tag: &str, pat: &str) -> bool {
             return false;
         }
         let l = &tag[2..];
-        return letters.chars().any(|c| if c == '-' { l.is_empty() } else { l.len() == 1 && l.starts_with(c) });
+        return letters.chars().any(|c| {
+            if c == '-' {
+                l.is_empty()
+            } else {
+                l.len() == 1 && l.starts_with(c)
+            }
+        });
     }
     tag == pat
 }
@@ -79,7 +85,10 @@ pub fn all<'a>(fs: &[&'a GenField], pat: &str) -> Vec<&'a GenField> {
 
 impl<'a> RView<'a> {
     pub fn new(m: &'a GenMsg) -> RView<'a> {
-        RView { mt: &m.mt, fields: &m.fields }
+        RView {
+            mt: &m.mt,
+            fields: &m.fields,
+        }
     }
     /// fields outside any repeating sequence (sequence A, and the inline sequence C of MT104/107)
     pub fn top(&self) -> Fs<'a> {
@@ -175,7 +184,8 @@ pub fn expected_for(m: &GenMsg) -> Option<Expect> {
         "104" => mt104::expected(&v),
         "107" => mt107::expected(&v),
         "110" => mt110::expected(&v),
-        "192" | "196" | "292" | "296" | "111" | "112" | "190" | "191" | "199" | "290" | "291" | "299" => mt19x::expected(&v),
+        "192" | "196" | "292" | "296" | "111" | "112" | "190" | "191" | "199" | "290" | "291"
+        | "299" => mt19x::expected(&v),
         "200" | "202" | "204" | "205" | "210" => mt2xx::expected(&v),
         "900" | "910" | "920" | "935" | "940" | "941" | "942" | "950" => mt9xx::expected(&v),
         _ => return None,
@@ -191,9 +201,12 @@ pub fn content_hook(mt: &str, tag: &str, src: &mut crate::choice::Src) -> Option
         "104" => mt104::content_hook(tag, src),
         "107" => mt107::content_hook(tag, src),
         "110" => mt110::content_hook(tag, src),
-        "192" | "196" | "292" | "296" | "111" | "112" | "190" | "191" | "199" | "290" | "291" | "299" => mt19x::content_hook(mt, tag, src),
+        "192" | "196" | "292" | "296" | "111" | "112" | "190" | "191" | "199" | "290" | "291"
+        | "299" => mt19x::content_hook(mt, tag, src),
         "200" | "202" | "204" | "205" | "210" => mt2xx::content_hook(mt, tag, src),
-        "900" | "910" | "920" | "935" | "940" | "941" | "942" | "950" => mt9xx::content_hook(mt, tag, src),
+        "900" | "910" | "920" | "935" | "940" | "941" | "942" | "950" => {
+            mt9xx::content_hook(mt, tag, src)
+        }
         _ => None,
     }
 }
